@@ -135,13 +135,16 @@ def jobs(tier, seed):
         for ncol in (10, 13):
             if n == 1 or tier == 'thorough' and n == 2:          # two symbolic ZMAP records take ~13 min of solver time
                 out.append({'name': 'zmap %d records %d columns' % (n, ncol), 'fmt': 'zmap', 'n': n, 'opts': {'ncol': ncol}, 'cost': 30 ** n})
-        for off in ('+0900', '+0000'):
+        for off in (('+0900', '+0000', '-0330') if n == 1 else ('+0900', '+0000')):
             out.append({'name': 'jma %d records offset %s' % (n, off), 'fmt': 'jma', 'n': n, 'opts': {'offset': off}, 'cost': 2 ** n})
         if n == 1 or tier == 'thorough' and n == 2:
             # split on the roll-over pattern of the first record (second >= 60, minute >= 60, hour >= 24): parallelism only
             for pat in [(a, b, c) for a in (0, 1) for b in (0, 1) for c in (0, 1)]:
                 out.append({'name': 'horus %d records, roll-over pattern %d%d%d' % ((n,) + pat), 'fmt': 'horus', 'n': n, 'opts': {'pattern': list(pat)},
                             'cost': 30 ** n})
+        if n == 2 and tier == 'quick':
+            # two HORUS records, the first with a seconds roll-over, the second without any (narrowed to keep the path count small)
+            out.append({'name': 'horus 2 records, first rolls over', 'fmt': 'horus', 'n': 2, 'opts': {'pattern': [1, 0, 0], 'second_plain': True}, 'cost': 60})
         for frac in (True, False):
             out.append({'name': 'csep-csv %d records fraction=%s' % (n, frac), 'fmt': 'csep', 'n': n, 'opts': {'frac': frac}, 'cost': 2 ** n})
     for j in out:
@@ -177,6 +180,10 @@ def _job(job):
             if roll:
                 # HORUS documents over-range clock fields (typos such as 61 s, minute 60, hour 24): one roll-over each
                 core.assume(z3.And(r['h'] >= 0, r['h'] <= 24, r['mi'] >= 0, r['mi'] <= 60, r['s_ms'] >= 0, r['s_ms'] < 120000))
+                if r is not iv[0] and opts.get('second_plain'):
+                    core.assume(z3.And(r['h'] <= 23, r['mi'] <= 59, r['s_ms'] < 60000, r['y'] == 2001, r['mo'] == 3, r['d'] >= 1, r['d'] <= 2))
+                if r is iv[0] and opts.get('second_plain'):
+                    core.assume(z3.And(r['y'] == 2000, r['mo'] == 2, r['d'] >= 28))
                 if r is iv[0] and opts.get('pattern'):
                     a, b, c = opts['pattern']
                     core.assume((r['s_ms'] >= 60000) == bool(a))
